@@ -297,6 +297,13 @@ class Server(_Server_):
         self.serializer = serializer
         delattr(self, 'id_to_local_proxy_obj')  # disable this
 
+        # Proxy objects that live in this process give their reference back by calling `decref`
+        # directly, from their finalizer. The finalizer runs wherever the proxy happens to be
+        # freed; that includes a garbage collection that starts while the current thread holds
+        # `self.mutex` (e.g. in `create`). Hence the mutex must be reentrant, otherwise that
+        # thread---and then the whole server---would block forever.
+        self.mutex = threading.RLock()
+
     def _wrap_user_exc(self, exc):
         return RemoteException(exc)
 
